@@ -36,11 +36,13 @@ PROP_TIES = {
     'C15': ['Handler.transactPosition'] + _keys('Position', 'transact', ['err', 'refusal']) + _keys('Position', 'updatePrice', ['err', 'refusal']) +
            _keys('Portfolio', 'subscribe', ['err', 'refusal']) + _keys('Portfolio', 'withdraw', ['err', 'refusal']) +
            _keys('Portfolio', 'transactAsset', ['err', 'refusal']) +
-           ['Broker.checkFunds', 'Broker.checkCurrency', 'Broker.subscribeAccount', 'Broker.withdrawAccount'],
+           ['Broker.checkFunds', 'Broker.checkCurrency', 'Broker.subscribeAccount', 'Broker.withdrawAccount', 'Broker.subscribePortfolio',
+            'Broker.withdrawPortfolio'],
     'C14': ['Session.plan'],
     'C16': ['Session.plan'],
     'C19': ['Universe.dynamicAssets', 'Optimiser.equalWeight', 'Alpha.singleSignal'],
-    'C01': ['Portfolio.subscribe', 'Portfolio.withdraw', 'Portfolio.transactAsset', 'Broker.subscribeAccount', 'Broker.withdrawAccount'],
+    'C01': ['Portfolio.subscribe', 'Portfolio.withdraw', 'Portfolio.transactAsset', 'Broker.subscribeAccount', 'Broker.withdrawAccount',
+            'Broker.subscribePortfolio', 'Broker.withdrawPortfolio'],
     'C04': ['Broker.makeTxn#fill'],
     'C05': ['Broker.makeTxn', 'PercentFee.totalCost', 'ZeroFee.totalCost'],
     'C10': ['DW.checkBuffer', 'DW.normalise', 'DW.quantity', 'PercentFee.totalCost', 'ZeroFee.totalCost'],
@@ -56,11 +58,14 @@ _UNIT_OF = {'Handler': 'Handler', 'Session': 'Plan', 'Universe': 'Kernels', 'Opt
 LIFTED_REQUIRES = ['Position.totalPnl', 'Position.realised', 'Position.unrealised', 'Position.avgPrice', 'Position.net',
                    'Position.transact', 'PercentFee.totalCost', 'ZeroFee.totalCost', 'DW.quantity', 'LS.quantity', 'Broker.makeTxn']
 # a second module of the same kind (QsProofs/Tie/LiftedBroker.lean): account-level broker requests
-LIFTED2_REQUIRES = ['Broker.checkFunds', 'Broker.checkCurrency', 'Broker.subscribeAccount', 'Broker.withdrawAccount']
+LIFTED2_REQUIRES = ['Broker.checkFunds', 'Broker.checkCurrency', 'Broker.subscribeAccount', 'Broker.withdrawAccount',
+                    'Broker.subscribePortfolio', 'Broker.withdrawPortfolio']
 LIFTED2_BY_PROP = {
-    'C01': ['Qs.Tie.C01_src_subscribeAccount', 'Qs.Tie.C01_src_withdrawAccount', 'Qs.Tie.C01_src_account_ops'],
+    'C01': ['Qs.Tie.C01_src_subscribeAccount', 'Qs.Tie.C01_src_withdrawAccount', 'Qs.Tie.C01_src_account_ops',
+            'Qs.Tie.C01_src_subscribePortfolio', 'Qs.Tie.C01_src_withdrawPortfolio', 'Qs.Tie.C01_src_portfolio_transfers'],
     'C15': ['Qs.Tie.C15_src_currency', 'Qs.Tie.C15_src_funds', 'Qs.Tie.C15_src_create', 'Qs.Tie.C01_src_subscribeAccount',
-            'Qs.Tie.C01_src_withdrawAccount', 'Qs.Tie.C01_src_account_ops'],
+            'Qs.Tie.C01_src_withdrawAccount', 'Qs.Tie.C01_src_account_ops', 'Qs.Tie.C01_src_subscribePortfolio',
+            'Qs.Tie.C01_src_withdrawPortfolio'],
 }
 LIFTED_BY_PROP = {
     'C02': ['Qs.Tie.C02_src_transact'],
